@@ -749,8 +749,8 @@ class Session:
             if k == "mask_block":
                 cm = vm.mask_params(dict(params))
             else:
-                if any(n in vm.bnd_dic for n in params) or self.mask:
-                    return  # temp_params under a bound / inside a mask: judged by C17-type checks, not here
+                if self.mask:
+                    return  # temp_params inside a mask block: judged by the C17 check
                 cm = vm.temp_params(dict(params))
             with cm:
                 if k == "mask_block":
